@@ -170,6 +170,9 @@ func Keys() []Named {
 		N("'Add'", "Add"), N("'Variadic'", "Variadic"), N("'Join'", "Join"), N("'Fmt'", "Fmt"), N("'Two'", "Two"), N("'Nothing'", "Nothing"), N("'NilFunc'", "NilFunc"), N("'Fn'", "Fn"), N("'TakesPtr'", "TakesPtr"),
 		N("'TakesIface'", "TakesIface"), N("'TakesFloat'", "TakesFloat"), N("'TakesSlice'", "TakesSlice"), N("'Concat'", "Concat"), N("'hiddenMethod'", "hiddenMethod"), N("'missing'", "missing"), N("''", ""),
 		N("'Items'", "Items"), N("'Inner'", "Inner"), N("'Any'", "Any"), N("'Attrs'", "Attrs"),
+		// strings that strconv.ParseFloat accepts but that are no usable index
+		N("'NaN'", "NaN"), N("'nan'", "nan"), N("'Inf'", "Inf"), N("'-Inf'", "-Inf"), N("'+Infinity'", "+Infinity"), N("'1e400'", "1e400"), N("'0x1'", "0x1"), N("'0x1p-2'", "0x1p-2"),
+		N("'1e0'", "1e0"), N("'1.0'", "1.0"), N("' 1'", " 1"), N("'-0'", "-0"), N("'1_0'", "1_0"),
 		N("0", 0), N("1", 1), N("2", 2), N("3", 3), N("-1", -1), N("100", 100), N("f1", 1.0), N("f1.5", 1.5), N("f2", 2.0), N("nan", math.NaN()), N("inf", math.Inf(1)), N("1e30", 1e30),
 		N("true", true), N("false", false), N("nil", nil), N("nilptr", nilPtr), N("uint8(200)", uint8(200)), N("int64(1)", int64(1)),
 		N("[]int", []int{1}), N("map", map[string]int{"a": 1}), N("stringer-k", ValStringer{"k"}), N("safe-a", stick.NewSafeValue("a", "html")), N("func", func() {}),
